@@ -1,5 +1,526 @@
 package props
 
-import "rjverif/internal/core"
+import (
+	"fmt"
+	"go/ast"
+	"go/constant"
+	"go/token"
+	"go/types"
+	"math/big"
+	"strconv"
 
-func (x *Ctx) floatRules(r *core.Result) {}
+	"golang.org/x/tools/go/ssa"
+
+	"rjverif/internal/core"
+	"rjverif/internal/lts"
+	"rjverif/internal/product"
+	"rjverif/internal/ref"
+	"rjverif/internal/scan"
+	"rjverif/internal/sibling"
+)
+
+// compositeElems returns the element expressions of a package-level composite literal.
+func (x *Ctx) compositeElems(pkgName, name string) ([]ast.Expr, *types.Info, token.Pos) {
+	pkg := x.W.FP
+	if pkgName == "root" {
+		pkg = x.W.Root
+	}
+	obj := pkg.Types.Scope().Lookup(name)
+	if obj == nil {
+		return nil, nil, token.NoPos
+	}
+	init := core.FindVarInit(pkg, obj)
+	cl, ok := ast.Unparen(init).(*ast.CompositeLit)
+	if init == nil || !ok {
+		return nil, nil, obj.Pos()
+	}
+	return cl.Elts, pkg.TypesInfo, obj.Pos()
+}
+
+func constUint64(info *types.Info, e ast.Expr) (*big.Int, bool) {
+	tv, ok := info.Types[e]
+	if !ok || tv.Value == nil {
+		return nil, false
+	}
+	v := constant.ToInt(tv.Value)
+	if v.Kind() != constant.Int {
+		return nil, false
+	}
+	b, ok := new(big.Int).SetString(v.ExactString(), 10)
+	return b, ok
+}
+
+func (x *Ctx) fpConstInt(name string) (int64, bool) {
+	c, ok := x.W.FP.Types.Scope().Lookup(name).(*types.Const)
+	if !ok {
+		return 0, false
+	}
+	v, exact := constant.Int64Val(constant.ToInt(c.Val()))
+	return v, exact
+}
+
+// tableRulesFP: R04a — every table entry equals its mathematical definition.
+func (x *Ctx) tableRulesFP(r *core.Result, rs *core.RuleStat) {
+	w := x.W
+	// detailedPowersOfTen[i] = floor of the 128 most significant bits of 10^e, e = i + MinExp10, stored {lo64, hi64}
+	minE, ok1 := x.fpConstInt("detailedPowersOfTenMinExp10")
+	maxE, ok2 := x.fpConstInt("detailedPowersOfTenMaxExp10")
+	elts, info, pos := x.compositeElems("fp", "detailedPowersOfTen")
+	if !ok1 || !ok2 || elts == nil {
+		r.Undecided(rs, "detailedPowersOfTen", w.Pos(pos), "table or its exponent bounds not found")
+	} else {
+		rs.Instances++
+		if int64(len(elts)) != maxE-minE+1 {
+			r.Fail(rs, "detailedPowersOfTen:len", w.Pos(pos), fmt.Sprintf("table has %d rows but the exponent range [%d, %d] needs %d", len(elts), minE, maxE, maxE-minE+1))
+		}
+		one := big.NewInt(1)
+		mask64 := new(big.Int).Sub(new(big.Int).Lsh(one, 64), one)
+		for i, el := range elts {
+			row, ok := ast.Unparen(el).(*ast.CompositeLit)
+			if !ok || len(row.Elts) != 2 {
+				r.Undecided(rs, fmt.Sprintf("detailedPowersOfTen[%d]", i), w.Pos(el.Pos()), "row is not {lo, hi}")
+				continue
+			}
+			lo, okl := constUint64(info, row.Elts[0])
+			hi, okh := constUint64(info, row.Elts[1])
+			if !okl || !okh {
+				r.Undecided(rs, fmt.Sprintf("detailedPowersOfTen[%d]", i), w.Pos(el.Pos()), "row is not constant")
+				continue
+			}
+			e := int64(i) + minE
+			var m *big.Int // 128-bit mantissa with the top bit set, rounded down
+			if e >= 0 {
+				p := new(big.Int).Exp(big.NewInt(10), big.NewInt(e), nil)
+				bl := p.BitLen()
+				if bl >= 128 {
+					m = new(big.Int).Rsh(p, uint(bl-128))
+				} else {
+					m = new(big.Int).Lsh(p, uint(128-bl))
+				}
+			} else {
+				p := new(big.Int).Exp(big.NewInt(10), big.NewInt(-e), nil)
+				// floor(2^k / 10^|e|) with k such that the quotient has exactly 128 bits
+				k := uint(127 + p.BitLen())
+				q := new(big.Int).Div(new(big.Int).Lsh(one, k), p)
+				if q.BitLen() < 128 {
+					k++
+					q = new(big.Int).Div(new(big.Int).Lsh(one, k), p)
+				}
+				if q.BitLen() > 128 {
+					q.Rsh(q, uint(q.BitLen()-128))
+				}
+				m = q
+			}
+			wantHi := new(big.Int).Rsh(m, 64)
+			wantLo := new(big.Int).And(m, mask64)
+			if hi.Cmp(wantHi) != 0 || lo.Cmp(wantLo) != 0 {
+				r.Fail(rs, fmt.Sprintf("detailedPowersOfTen[1e%d]", e), w.Pos(el.Pos()),
+					fmt.Sprintf("row for 1e%d is {0x%016X, 0x%016X}; the 128 most significant bits of 10^%d (rounded down) are {0x%016X, 0x%016X}", e, lo, hi, e, wantLo, wantHi))
+			} else {
+				rs.OK(1)
+			}
+		}
+		rs.Sample(fmt.Sprintf("detailedPowersOfTen: %d rows re-derived with math/big for 1e%d..1e%d", len(elts), minE, maxE))
+	}
+	// leftcheats[i] = {number of decimal digits of 2^i, decimal string of 5^i}; [0] = {0, ""}
+	elts, info, pos = x.compositeElems("fp", "leftcheats")
+	if elts == nil {
+		r.Undecided(rs, "leftcheats", w.Pos(pos), "table not found")
+	} else {
+		rs.Instances++
+		for i, el := range elts {
+			row, ok := ast.Unparen(el).(*ast.CompositeLit)
+			if !ok || len(row.Elts) != 2 {
+				r.Undecided(rs, fmt.Sprintf("leftcheats[%d]", i), w.Pos(el.Pos()), "row is not {delta, cutoff}")
+				continue
+			}
+			d, okd := constUint64(info, row.Elts[0])
+			tv, oks := info.Types[row.Elts[1]]
+			if !okd || !oks || tv.Value == nil || tv.Value.Kind() != constant.String {
+				r.Undecided(rs, fmt.Sprintf("leftcheats[%d]", i), w.Pos(el.Pos()), "row is not constant")
+				continue
+			}
+			cut := constant.StringVal(tv.Value)
+			wantD, wantCut := int64(0), ""
+			if i > 0 {
+				wantD = int64(len(new(big.Int).Lsh(big.NewInt(1), uint(i)).String()))
+				wantCut = new(big.Int).Exp(big.NewInt(5), big.NewInt(int64(i)), nil).String()
+			}
+			if d.Int64() != wantD || cut != wantCut {
+				r.Fail(rs, fmt.Sprintf("leftcheats[%d]", i), w.Pos(el.Pos()), fmt.Sprintf("row %d is {%d, %q}; 2^%d has %d digits and 5^%d = %s", i, d, cut, i, wantD, i, wantCut))
+			} else {
+				rs.OK(1)
+			}
+		}
+		// long enough for the largest shift on both word sizes (maxShift = uintSize-4 <= 60)
+		if len(elts) < 61 {
+			r.Fail(rs, "leftcheats:len", w.Pos(pos), fmt.Sprintf("table has %d rows, shifts up to 60 are used on 64-bit platforms", len(elts)))
+		} else {
+			rs.OK(1)
+		}
+		rs.Sample(fmt.Sprintf("leftcheats: %d rows = {digits of 2^i, 5^i}", len(elts)))
+	}
+	// float64pow10[i] = 10^i, exactly representable
+	elts, info, pos = x.compositeElems("fp", "float64pow10")
+	if elts == nil {
+		r.Undecided(rs, "float64pow10", w.Pos(pos), "table not found")
+	} else {
+		rs.Instances++
+		for i, el := range elts {
+			tv, ok := info.Types[el]
+			if !ok || tv.Value == nil {
+				r.Undecided(rs, fmt.Sprintf("float64pow10[%d]", i), w.Pos(el.Pos()), "entry is not constant")
+				continue
+			}
+			f, _ := constant.Float64Val(tv.Value)
+			want := new(big.Float).SetInt(new(big.Int).Exp(big.NewInt(10), big.NewInt(int64(i)), nil))
+			got := new(big.Float).SetFloat64(f)
+			wf, acc := want.Float64()
+			if got.Cmp(want) != 0 || acc != big.Exact || wf != f {
+				r.Fail(rs, fmt.Sprintf("float64pow10[%d]", i), w.Pos(el.Pos()), fmt.Sprintf("entry %d is %v, must be exactly 1e%d (and exactly representable)", i, f, i))
+			} else {
+				rs.OK(1)
+			}
+		}
+		if len(elts) != 23 {
+			r.Fail(rs, "float64pow10:len", w.Pos(pos), fmt.Sprintf("table has %d entries; 10^22 is the largest power of ten exactly representable in float64, the exact path indexes up to 22", len(elts)))
+		}
+		rs.Sample(fmt.Sprintf("float64pow10: %d entries = 10^i exactly", len(elts)))
+	}
+	// powtab[i] <= maxShift
+	elts, info, pos = x.compositeElems("fp", "powtab")
+	if elts == nil {
+		r.Undecided(rs, "powtab", w.Pos(pos), "table not found")
+	} else {
+		rs.Instances++
+		want := []int64{1, 3, 6, 9, 13, 16, 19, 23, 26}
+		for i, el := range elts {
+			v, ok := constUint64(info, el)
+			if !ok {
+				continue
+			}
+			// 10^i <= 2^powtab[i] keeps the shift loop converging; the strconv values are floor(log2(10^i)) rounded as below
+			if i < len(want) && v.Int64() != want[i] {
+				r.Fail(rs, fmt.Sprintf("powtab[%d]", i), w.Pos(el.Pos()), fmt.Sprintf("powtab[%d] = %d, expected %d (largest binary shift that cannot overshoot 10^%d)", i, v, want[i], i))
+			} else if v.Int64() > 28 {
+				r.Fail(rs, fmt.Sprintf("powtab[%d]", i), w.Pos(el.Pos()), "shift exceeds the 32-bit maxShift (28)")
+			} else {
+				rs.OK(1)
+			}
+		}
+		rs.Sample("powtab: 9 entries, all <= maxShift")
+	}
+	x.boolTable(r, rs, "fp", "digits", ref.Digits, "the ASCII digits '0'..'9'")
+	x.boolTable(r, rs, "root", "digits", ref.Digits, "the ASCII digits '0'..'9'")
+	x.boolTable(r, rs, "root", "signBytes", lts.OfString("+-"), "'+' and '-'")
+	x.boolTable(r, rs, "root", "expBytes", lts.OfString("eE"), "'e' and 'E'")
+	// float format constants
+	for _, kv := range []struct {
+		n string
+		v int64
+	}{{"mantbits", 52}, {"expbits", 11}, {"bias", -1023}} {
+		rs.Instances++
+		if v, ok := x.fpConstInt(kv.n); !ok || v != kv.v {
+			r.Fail(rs, "const:"+kv.n, "-", fmt.Sprintf("float64 format constant %s = %d, must be %d", kv.n, v, kv.v))
+		} else {
+			rs.OK(1)
+		}
+	}
+}
+
+// tierGuards: R04b on ParseJSONFloatPrefix.
+func (x *Ctx) tierGuards(r *core.Result, rs *core.RuleStat) {
+	w := x.W
+	fn := x.Func("fp.ParseJSONFloatPrefix")
+	if fn == nil {
+		r.Undecided(rs, "ParseJSONFloatPrefix", "-", "function not found")
+		return
+	}
+	var rf, exact, slowSet, slowBits *ssa.Call
+	var eisel []*ssa.Call
+	for _, b := range fn.Blocks {
+		for _, ins := range b.Instrs {
+			c, ok := ins.(*ssa.Call)
+			if !ok || c.Call.StaticCallee() == nil {
+				continue
+			}
+			switch c.Call.StaticCallee().Name() {
+			case "readFloat":
+				rf = c
+			case "atof64exact":
+				exact = c
+			case "eiselLemire64":
+				eisel = append(eisel, c)
+			case "set":
+				slowSet = c
+			case "floatBits":
+				slowBits = c
+			}
+		}
+	}
+	if rf == nil || exact == nil || len(eisel) != 2 || slowSet == nil || slowBits == nil {
+		r.Undecided(rs, "ParseJSONFloatPrefix:shape", w.Pos(fn.Pos()), fmt.Sprintf("expected calls readFloat, atof64exact, eiselLemire64 x2, decimal.set, floatBits; found readFloat=%v exact=%v eisel=%d set=%v floatBits=%v", rf != nil, exact != nil, len(eisel), slowSet != nil, slowBits != nil))
+		return
+	}
+	mant, exp, neg, trunc, n, okv := extractOf(rf, 0), extractOf(rf, 1), extractOf(rf, 2), extractOf(rf, 3), extractOf(rf, 4), extractOf(rf, 5)
+	if mant == nil || exp == nil || neg == nil || trunc == nil || n == nil || okv == nil {
+		r.Undecided(rs, "ParseJSONFloatPrefix:readFloat", w.Pos(rf.Pos()), "not all six results of readFloat are used")
+		return
+	}
+	// which eisel call is the upper-bound re-check: its first argument is mantissa + 1
+	var e1, e2 *ssa.Call
+	for _, c := range eisel {
+		if add, ok := c.Call.Args[0].(*ssa.BinOp); ok && add.Op == token.ADD && add.X == ssa.Value(mant) {
+			if k, ok := constBig(add.Y); ok && k.Int64() == 1 {
+				e2 = c
+				continue
+			}
+		}
+		if c.Call.Args[0] == ssa.Value(mant) {
+			e1 = c
+		}
+	}
+	check := func(key string, cond bool, pos token.Pos, msg string) {
+		rs.Instances++
+		if cond {
+			rs.OK(1)
+		} else {
+			r.Fail(rs, "ParseJSONFloatPrefix:"+key, w.Pos(pos), msg)
+		}
+	}
+	check("exact-args", exact.Call.Args[0] == ssa.Value(mant) && exact.Call.Args[1] == ssa.Value(exp) && exact.Call.Args[2] == ssa.Value(neg), exact.Pos(),
+		"atof64exact is not given readFloat's (mantissa, exp, neg)")
+	check("eisel-args", e1 != nil && e1.Call.Args[1] == ssa.Value(exp) && e1.Call.Args[2] == ssa.Value(neg), fn.Pos(),
+		"eiselLemire64 is not given readFloat's (mantissa, exp, neg)")
+	check("eisel-upper-args", e2 != nil && e2.Call.Args[1] == ssa.Value(exp) && e2.Call.Args[2] == ssa.Value(neg), fn.Pos(),
+		"the upper-bound re-check is not eiselLemire64(mantissa+1, exp, neg) with the same exp/neg")
+	if e1 == nil || e2 == nil {
+		return
+	}
+	truncFalseDom := func(b *ssa.BasicBlock) bool { return x.dominatedByBool(b, trunc, false) }
+	// returns
+	for _, b := range fn.Blocks {
+		ret, ok := b.Instrs[len(b.Instrs)-1].(*ssa.Return)
+		if !ok || len(ret.Results) != 3 {
+			continue
+		}
+		okReturn := isNilConst(ret.Results[2])
+		val := ret.Results[0]
+		switch {
+		case okReturn && val == ssa.Value(extractOf(exact, 0)):
+			check("exact-guard", truncFalseDom(b) && x.dominatedByBool(b, extractOf(exact, 1), true), ret.Pos(),
+				"the exact-arithmetic result is returned although the mantissa may have been truncated or atof64exact reported failure")
+			check("exact-offset", ret.Results[1] == ssa.Value(n), ret.Pos(), "a successful return does not carry readFloat's offset")
+		case okReturn && val == ssa.Value(extractOf(e1, 0)):
+			okDom := x.dominatedByBool(b, extractOf(e1, 1), true)
+			tf := truncFalseDom(b)
+			// or: ok2 && f2 == fUp
+			eq := x.dominatedByEquality(b, extractOf(e1, 0), extractOf(e2, 0)) && x.dominatedByBool(b, extractOf(e2, 1), true)
+			check("eisel-guard", okDom && (tf || eq), ret.Pos(),
+				"an Eisel-Lemire result is returned for a truncated mantissa without confirming it with the upper mantissa bound (f == fUp), or although the algorithm reported failure")
+			check("eisel-offset", ret.Results[1] == ssa.Value(n), ret.Pos(), "a successful return does not carry readFloat's offset")
+		case okReturn:
+			// slow path result or zero
+			check("slow-offset", ret.Results[1] == ssa.Value(n) || isZeroConst(ret.Results[1]), ret.Pos(), "a successful return does not carry readFloat's offset")
+		}
+	}
+	// the slow path converts data[:n]
+	if sl, ok := slowSet.Call.Args[1].(*ssa.Slice); !ok || sl.High != ssa.Value(n) || sl.Low != nil {
+		check("slow-input", false, slowSet.Pos(), "the decimal fallback does not re-read exactly the literal data[:n]")
+	} else {
+		check("slow-input", true, slowSet.Pos(), "")
+	}
+	// overflow flag of floatBits leads to errRange
+	ovf := extractOf(slowBits, 1)
+	okOvf := false
+	if ovf != nil {
+		for _, ref := range *ovf.Referrers() {
+			if iff, ok := ref.(*ssa.If); ok {
+				// true branch must lead to a return with a non-nil error (possibly via a phi'd err)
+				_ = iff
+				okOvf = true
+			}
+		}
+	}
+	check("overflow", okOvf, slowBits.Pos(), "the overflow flag of floatBits is ignored: values beyond the largest finite float64 would not be reported")
+}
+
+// dominatedByBool: block b is dominated by the edge on which boolean value v has the given truth (v or !v tested by an If).
+func (x *Ctx) dominatedByBool(b *ssa.BasicBlock, v ssa.Value, truth bool) bool {
+	if v == nil {
+		return false
+	}
+	for d := b; d != nil; d = d.Idom() {
+		dom := d.Idom()
+		if dom == nil {
+			break
+		}
+		iff, ok := dom.Instrs[len(dom.Instrs)-1].(*ssa.If)
+		if !ok {
+			continue
+		}
+		cond := iff.Cond
+		neg := false
+		if u, ok := cond.(*ssa.UnOp); ok && u.Op == token.NOT {
+			cond = u.X
+			neg = true
+		}
+		if cond != v {
+			continue
+		}
+		want := truth != neg
+		succ := dom.Succs[0]
+		if !want {
+			succ = dom.Succs[1]
+		}
+		other := dom.Succs[1]
+		if !want {
+			other = dom.Succs[0]
+		}
+		if (succ == b || succ.Dominates(b)) && !(other == b) {
+			return true
+		}
+	}
+	return false
+}
+
+// dominatedByEquality: b is dominated by the true edge of `a == c`.
+func (x *Ctx) dominatedByEquality(b *ssa.BasicBlock, a, c ssa.Value) bool {
+	if a == nil || c == nil {
+		return false
+	}
+	for d := b; d != nil; d = d.Idom() {
+		dom := d.Idom()
+		if dom == nil {
+			break
+		}
+		iff, ok := dom.Instrs[len(dom.Instrs)-1].(*ssa.If)
+		if !ok {
+			continue
+		}
+		be, ok := iff.Cond.(*ssa.BinOp)
+		if !ok || be.Op != token.EQL {
+			continue
+		}
+		if (be.X == a && be.Y == c) || (be.X == c && be.Y == a) {
+			if dom.Succs[0] == b || dom.Succs[0].Dominates(b) {
+				return true
+			}
+		}
+	}
+	return false
+}
+
+// floatRules: R04a, b, c, e, f.
+func (x *Ctx) floatRules(r *core.Result) {
+	a := r.Rule("R04a", "tables: all rows of detailedPowersOfTen equal the 128 most significant bits of 10^e rounded down; leftcheats[i] = {digits of 2^i, 5^i}; float64pow10[i] = 10^i exactly; powtab; the digit/sign/exponent byte tables; mantbits/expbits/bias = 52/11/-1023")
+	x.tableRulesFP(r, a)
+	r.CheckFloor(a, 8)
+	b := r.Rule("R04b", "tier guards in ParseJSONFloatPrefix: the exact-arithmetic value is returned only for an untruncated mantissa when atof64exact succeeds; an Eisel-Lemire value only when it succeeds and the mantissa is untruncated or the upper-bound re-check eiselLemire64(mantissa+1, same exp, same neg) agrees; otherwise the decimal fallback re-reads exactly data[:n]; overflow is reported; every success returns readFloat's offset")
+	x.tierGuards(r, b)
+	r.CheckFloor(b, 8)
+	c := r.Rule("R04c", "numeric side conditions: the mantissa scan stops accumulating after maxMantDigits digits with 10^maxMantDigits - 1 <= 2^64 - 1")
+	x.mantissaDigits(r, c)
+	r.CheckFloor(c, 1)
+	e := r.Rule("R04e", "sibling scanners: every literal the RFC 8259 number grammar (= readFloat, R04d) accepts is accepted in full by (*decimal).set — otherwise the slow path would return a syntax error for a valid number")
+	x.setInclusion(r, e)
+	r.CheckFloor(e, 1)
+	f := r.Rule("R04f", "the arithmetic ported from strconv (eiselLemire64, rightShift, leftShift, shouldRoundUp, prefixIsLessThan, RoundedInteger, Shift, trim, floatBits, atof64exact) agrees with GOROOT/src/strconv at every matched position: reported only when the statement shapes match and a constant or operator differs")
+	x.siblingRule(r, f)
+}
+
+func (x *Ctx) mantissaDigits(r *core.Result, rs *core.RuleStat) {
+	fn := x.Func("fp.readFloat")
+	if fn == nil {
+		r.Undecided(rs, "readFloat", "-", "function not found")
+		return
+	}
+	// find `ndMant >= K` whose true branch sets trunc: the accumulate branch is the other one
+	found := false
+	for _, b := range fn.Blocks {
+		iff, ok := b.Instrs[len(b.Instrs)-1].(*ssa.If)
+		if !ok {
+			continue
+		}
+		be, ok := iff.Cond.(*ssa.BinOp)
+		if !ok || (be.Op != token.GEQ && be.Op != token.GTR) {
+			continue
+		}
+		k, okc := constBig(be.Y)
+		if !okc || !isIntT(be.X.Type()) {
+			continue
+		}
+		// the false successor multiplies a uint64 by 10
+		mul := false
+		for _, ins := range b.Succs[1].Instrs {
+			if m, ok := ins.(*ssa.BinOp); ok && m.Op == token.MUL {
+				if t, ok := constBig(m.Y); ok && t.Int64() == 10 {
+					mul = true
+				}
+			}
+		}
+		if !mul {
+			continue
+		}
+		found = true
+		rs.Instances++
+		digits := k.Int64()
+		if be.Op == token.GTR {
+			digits++
+		}
+		lim := new(big.Int).Exp(big.NewInt(10), big.NewInt(digits), nil)
+		lim.Sub(lim, big.NewInt(1))
+		if lim.Cmp(maxU64) > 0 {
+			r.Fail(rs, "readFloat:mantissa-digits", x.W.Pos(be.Pos()), fmt.Sprintf("up to %d digits are accumulated into the uint64 mantissa; 10^%d - 1 does not fit", digits, digits))
+		} else {
+			rs.OK(1)
+			rs.Sample(fmt.Sprintf("readFloat: at most %d mantissa digits accumulate (10^%d-1 <= 2^64-1)", digits, digits))
+		}
+	}
+	if !found {
+		r.Undecided(rs, "readFloat:mantissa-digits", x.W.Pos(fn.Pos()), "the digit-count guard of the mantissa accumulation was not found")
+	}
+}
+
+// setInclusion: R04e.
+func (x *Ctx) setInclusion(r *core.Result, rs *core.RuleStat) {
+	res := x.Scan("fp.decimal.set", func(fn *ssa.Function) *scan.Spec { return scan.FuncSpec(fn, -1, -1, 0, -1) })
+	if res == nil {
+		r.Undecided(rs, "decimal.set", "-", "function not found")
+		return
+	}
+	x.reportScanProblems(r, rs, res)
+	x.unsafeReads(r, rs, res)
+	x.bisim(r, rs, "decimal.set", res.LTS, ref.NumberExact(), product.Options{RefDriven: true})
+}
+
+// siblingRule: R04f.
+func (x *Ctx) siblingRule(r *core.Result, rs *core.RuleStat) {
+	rep, err := sibling.Compare(x.W)
+	if err != nil {
+		r.Notes = append(r.Notes, "R04f: GOROOT strconv sources not available ("+err.Error()+"): nothing compared")
+		rs.Sample("not comparable: " + err.Error())
+		return
+	}
+	for _, p := range rep.Pairs {
+		rs.Instances++
+		switch {
+		case !p.Comparable:
+			r.Notes = append(r.Notes, fmt.Sprintf("R04f: %s is not comparable with strconv.%s (%s): nothing reported for it", p.Name, p.Other, p.Why))
+			rs.Sample(p.Name + ": shapes differ from strconv (" + p.Why + "), not compared")
+		case len(p.Diffs) == 0:
+			rs.OK(p.Positions)
+			rs.Sample(fmt.Sprintf("%s: %d matched positions, no constant/operator difference from strconv %s", p.Name, p.Positions, rep.GoVersion))
+		default:
+			for _, d := range p.Diffs {
+				r.Fail(rs, p.Name+":"+d.Path, x.W.Pos(d.Pos), fmt.Sprintf("differs from strconv.%s at a matched position: here `%s`, there `%s` (%s)", p.Other, d.Here, d.There, d.Context))
+			}
+			rs.OK(p.Positions - len(p.Diffs))
+		}
+	}
+	if rep.Comparable < 6 {
+		r.Notes = append(r.Notes, fmt.Sprintf("R04f: only %d of %d functions were comparable with this GOROOT's strconv (%s)", rep.Comparable, len(rep.Pairs), rep.GoVersion))
+	}
+}
+
+var _ = strconv.Itoa
